@@ -299,6 +299,13 @@ def draw_op(rng, fs, total_q):
         if rng.random() < 0.6:
             kw["type"] = str(rng.choice(["linear", "constant"]))
         return "detrend", kw
+    if 0.55 <= u < 0.62:
+        # a stiff filter: high order (the documented default is 8) with a low / narrow band - fine in second-order sections
+        nyq = fs / 2
+        if rng.random() < 0.5:
+            return "filter", dict(Wn=float(rng.uniform(0.01, 0.05) * nyq), order=int(rng.choice([6, 8])), btype="lowpass")
+        lo = float(rng.uniform(0.01, 0.03) * nyq)
+        return "filter", dict(Wn=(lo, float(lo + rng.uniform(0.08, 0.2) * nyq)), order=int(rng.choice([6, 8])), btype="bandpass")
     if u < 0.85:
         bt = str(rng.choice(["lowpass", "highpass", "bandpass"]))
         nyq = fs / 2
